@@ -11,6 +11,15 @@ N7  `I.filter(|a| C).filter_map(|b| B).map(|c| E).collect()`  ->  `{ let mut acc
 N10 `let v = X.any(|p| Y.any(|q| C));` (any nesting depth)  ->  `let mut v = false; for p in X { for q in Y { if C { v = true; } } }`
 N11 `if a != b { X } else { Y }`                   ->  `if a == b { Y } else { X }`   (also `if !c {X} else {Y}` -> `if c {Y} else {X}`)
 N12 `let x = { #[cfg(p)] { a } #[cfg(not(p))] { b } };`  ->  the cfg-twin bindings `#[cfg(p)] let x = a; #[cfg(not(p))] let x = b;`
+N13 `let mut v = Vec::new(); .. v.push(quote!(X)); .. quote!( .. #(#v sep)* .. )`  ->  `let mut v = TokenStream::new(); .. v.extend(quote!(X sep)); .. quote!( .. #v .. )`
+    (pieces collected in a Vec<TokenStream> and interpolated with a repetition are a stream accumulator; `#(#v),*` — separator
+    outside the group — is read the same way, which is exact wherever a trailing separator is legal)
+N15 `match t { Enum::A => { X } #[cfg(c)] Enum::B => { Y } _ => {} }` as a statement, t a plain variable, every pattern a path of a
+    unit variant  ->  `if t == Enum::A { X }  #[cfg(c)] if t == Enum::B { Y }`   (the patterns are disjoint, so the order is free)
+N18 `match M.entry(K) { Entry::Occupied(o) => { A }, Entry::Vacant(v) => { .. v.insert(V) .. } }`  ->
+    `if M.contains_key(&K) { A } else { .. M.insert(K, V) .. }`  (o unused)  /  `if let Some(o) = M.get_mut(&K) { A[o.into_mut() := o] } else { .. }`
+N19 inside `if V.is_none() { .. }`:  `let mut it = I.filter(|q| C); if let Some(p) = it.next() { if it.next().is_none() { V = Some(E); } }`
+    ->  `for p in I { if C[q:=p] { if V.is_some() { V = None; break; } V = Some(E); } }`   (unique-match selection)
 N5  `W.predicates.extend(X);`                      ->  `for __item in X { W.predicates.push(__item); }`
 """
 
@@ -100,21 +109,391 @@ def _any_let(st):
     return [decl, body]
 
 
+def _walk(n, f):
+    if isinstance(n, list):
+        for x in n:
+            _walk(x, f)
+    elif isinstance(n, dict):
+        f(n)
+        for k, v in n.items():
+            if not (isinstance(k, str) and k.startswith('_')):
+                _walk(v, f)
+
+
+def _rep_sites(tokens, out):
+    """(token list, index of the rep token, hole name, separator or '', number of tokens to replace)"""
+    for i, t in enumerate(tokens):
+        if t['t'] == 'rep':
+            ts = t['ts']
+            name = sep = None
+            if len(ts) == 1 and ts[0]['t'] == 'h':
+                name, sep = ts[0]['s'], ''
+            elif len(ts) == 2 and ts[0]['t'] == 'h' and ts[1]['t'] == 'p' and ts[1]['s'] in (',', ';'):
+                name, sep = ts[0]['s'], ts[1]['s']
+            if name is not None:
+                j = i + 1
+                n_ = 1
+                if sep == '' and j < len(tokens) and tokens[j]['t'] == 'p' and tokens[j]['s'] in (',', ';') and j + 1 < len(tokens) \
+                        and tokens[j + 1]['t'] == 'p' and tokens[j + 1]['s'] == '*':
+                    sep = tokens[j]['s']
+                    n_ = 3
+                elif j < len(tokens) and tokens[j]['t'] == 'p' and tokens[j]['s'] == '*':
+                    n_ = 2
+                else:
+                    name = None
+                if name is not None:
+                    out.append((tokens, i, name, sep, n_))
+            _rep_sites(t['ts'], out)
+        elif t['t'] == 'g':
+            _rep_sites(t['ts'], out)
+
+
+def _vec_pieces(fn_item):
+    """N13 on one function"""
+    blk = fn_item.get('block')
+    if not isinstance(blk, dict):
+        return
+    sites = []
+
+    def tm(n):
+        if n.get('k') == 'Macro' and isinstance(n.get('mac'), dict) and isinstance(n['mac'].get('tmpl'), list):
+            _rep_sites(n['mac']['tmpl'], sites)
+    _walk(blk, tm)
+    if not sites:
+        return
+    seps = {}
+    for _, _, name, sep, _ in sites:
+        seps.setdefault(name, set()).add(sep)
+    for name, ss in seps.items():
+        if len(ss) != 1:
+            continue
+        sep = next(iter(ss))
+        locals_, uses, pushes, other = [], [], [], []
+
+        def vis(n):
+            if n.get('k') == 'Local':
+                p_ = n['pat']
+                while p_.get('k') == 'Type':
+                    p_ = p_['pat']
+                if p_.get('k') == 'Ident' and p_.get('name') == name:
+                    locals_.append(n)
+            if n.get('k') == 'MethodCall' and n['recv'].get('k') == 'Path' and n['recv']['path']['s'] == name:
+                if n['method'] == 'push' and len(n['args']) == 1:
+                    pushes.append(n)
+                elif n['method'] not in ('is_empty', 'len'):
+                    other.append(n)
+        _walk(blk, vis)
+        okinit = bool(locals_)
+        for l_ in locals_:
+            i_ = l_.get('init')
+            t_ = ''
+            if isinstance(i_, dict) and i_.get('k') == 'Call' and i_['func'].get('k') == 'Path':
+                t_ = i_['func']['path']['s']
+            elif isinstance(i_, dict) and i_.get('k') == 'Macro' and i_['mac'].get('name') == 'vec' and not (i_['mac'].get('text') or '').strip() and not i_['mac'].get('args'):
+                t_ = 'Vec::new'
+            if t_ not in ('Vec::new', 'Vec::with_capacity'):
+                okinit = False
+        # every other mention of the name must be one of the recognised uses
+        count = [0]
+
+        def cnt(n):
+            if n.get('k') == 'Path' and isinstance(n.get('path'), dict) and n['path'].get('s') == name:
+                count[0] += 1
+        _walk(blk, cnt)
+        n_is_empty = [0]
+
+        def cie(n):
+            if n.get('k') == 'MethodCall' and n['recv'].get('k') == 'Path' and n['recv']['path']['s'] == name and n['method'] in ('is_empty',):
+                n_is_empty[0] += 1
+        _walk(blk, cie)
+        if not okinit or other or count[0] != len(pushes) + n_is_empty[0]:
+            continue
+        # rewrite
+        for l_ in locals_:
+            ln = l_.get('l', 0)
+            l_['init'] = {'k': 'Call', 'l': ln, 'args': [], 'func': _path('proc_macro2::TokenStream::new', ln)}
+            l_['init']['func']['qself'] = None
+            l_['ty'] = None
+            l_['n13'] = True
+        for pc in pushes:
+            a = pc['args'][0]
+            pc['method'] = 'extend'
+            if sep:
+                if a.get('k') == 'Macro' and isinstance(a['mac'].get('tmpl'), list):
+                    a['mac']['tmpl'] = list(a['mac']['tmpl']) + [{'t': 'p', 's': sep, 'j': False, 'l': a.get('l', 0)}]
+                else:
+                    pc['n13_sep'] = sep
+        for toks, i, nm, sp, n_ in sorted([x for x in sites if x[2] == name], key=lambda x: -x[1]):
+            toks[i:i + n_] = [{'t': 'h', 's': name, 'l': toks[i].get('l', 0)}]
+
+
+def _split_n13(stmts):
+    """`v.extend(X)` with a pending separator (X is not a literal template): `v.extend(X); v.extend(quote!(sep));`"""
+    out = []
+    for st in stmts:
+        out.append(st)
+        e = st.get('expr') if st.get('k') == 'Expr' else None
+        if isinstance(e, dict) and e.get('k') == 'MethodCall' and e.get('n13_sep'):
+            sep = e.pop('n13_sep')
+            l = e.get('l', 0)
+            out.append({'k': 'Expr', 'l': l, 'semi': True, 'expr': {'k': 'MethodCall', 'l': l, 'ml': l, 'method': 'extend', 'turbofish': None,
+                        'recv': dict(e['recv']),
+                        'args': [{'k': 'Macro', 'l': l, 'mac': {'delim': '(', 'l': l, 'name': 'quote', 'tmpl': [{'t': 'p', 's': sep, 'j': False, 'l': l}]}}]}})
+    return out
+
+
+def _match_as_ifs(st):
+    """N15"""
+    if st.get('k') != 'Expr' or not isinstance(st.get('expr'), dict) or st['expr'].get('k') != 'Match':
+        return None
+    m = st['expr']
+    sc = m['expr']
+    if sc.get('k') != 'Path' or len(sc['path']['segs']) != 1 or m.get('attrs'):
+        return None
+    arms = m['arms']
+    if len(arms) < 2:
+        return None
+    last = arms[-1]
+    lb = last['body']
+    empty_last = last['pat'].get('k') == 'Wild' and last.get('guard') is None and not last.get('attrs') and \
+        ((lb.get('k') == 'Block' and not lb.get('stmts')) or (lb.get('k') == 'Tuple' and not lb.get('elems')))
+    if not empty_last:
+        return None
+    out = []
+    for a in arms[:-1]:
+        p = a['pat']
+        if p.get('k') != 'Path' or len(p['path']['segs']) < 2 or a.get('guard') is not None:
+            return None
+        b = a['body']
+        if b.get('k') != 'Block':
+            b = {'k': 'Block', 'l': b.get('l', 0), 'stmts': [{'k': 'Expr', 'expr': b, 'semi': True, 'l': b.get('l', 0)}]}
+        cond = {'k': 'Binary', 'l': a.get('l', 0), 'op': '==', 'l_': dict(sc), 'r_': {'k': 'Path', 'l': p.get('l', 0), 'path': p['path'], 'qself': None}}
+        iff = {'k': 'If', 'l': a.get('l', 0), 'cond': cond, 'then': b, 'else': None, 'desugared': 'match-on-unit-variants'}
+        attrs = [x for x in (a.get('attrs') or []) if x.get('name') == 'cfg']
+        if attrs:
+            iff['attrs'] = attrs
+        out.append({'k': 'Expr', 'expr': iff, 'semi': False, 'l': a.get('l', 0)})
+    return out
+
+
+def _map_over(node, fn):
+    if isinstance(node, list):
+        return [_map_over(x, fn) for x in node]
+    if not isinstance(node, dict):
+        return node
+    r = fn(node)
+    if r is not None:
+        return r
+    return {k: (_map_over(v, fn) if not (isinstance(k, str) and k.startswith('_')) else v) for k, v in node.items()}
+
+
+def _uses(node, name):
+    c = [0]
+
+    def f(n):
+        if n.get('k') == 'Path' and isinstance(n.get('path'), dict) and n['path'].get('s') == name and 'qself' in n:
+            c[0] += 1
+    _walk(node, f)
+    return c[0]
+
+
+def _entry_match(st):
+    """N18"""
+    if st.get('k') != 'Expr' or not isinstance(st.get('expr'), dict) or st['expr'].get('k') != 'Match':
+        return None
+    m = st['expr']
+    sc = m['expr']
+    if sc.get('k') != 'MethodCall' or sc.get('method') != 'entry' or len(sc.get('args', [])) != 1 or len(m['arms']) != 2:
+        return None
+    M, K = sc['recv'], sc['args'][0]
+    if K.get('k') != 'Path' or M.get('k') != 'Path':
+        return None
+    occ = vac = None
+    for a in m['arms']:
+        p = a['pat']
+        if p.get('k') != 'TupleStruct' or len(p.get('elems', [])) != 1 or a.get('guard') is not None or a.get('attrs'):
+            return None
+        last = p['path']['segs'][-1]['id']
+        b = p['elems'][0]
+        bname = b.get('name') if b.get('k') == 'Ident' else (None if b.get('k') == 'Wild' else False)
+        if bname is False:
+            return None
+        if last == 'Occupied':
+            occ = (a, bname)
+        elif last == 'Vacant':
+            vac = (a, bname)
+    if occ is None or vac is None:
+        return None
+    l = st.get('l', 0)
+
+    def as_block(b):
+        if b.get('k') == 'Block':
+            return b
+        return {'k': 'Block', 'l': b.get('l', l), 'stmts': [{'k': 'Expr', 'expr': b, 'semi': True, 'l': b.get('l', l)}]}
+    A, on = as_block(occ[0]['body']), occ[1]
+    B, vn = as_block(vac[0]['body']), vac[1]
+    keyref = {'k': 'Ref', 'l': l, 'mut': False, 'expr': dict(K)}
+    # vacant side: every use of v is `v.insert(V)`
+    if vn is not None:
+        bad = [0]
+        total = _uses(B, vn)
+        hits = [0]
+
+        def fv(n):
+            if n.get('k') == 'MethodCall' and n['recv'].get('k') == 'Path' and n['recv']['path'].get('s') == vn:
+                if n['method'] == 'insert' and len(n['args']) == 1:
+                    hits[0] += 1
+                    return {'k': 'MethodCall', 'l': n.get('l', l), 'ml': n.get('l', l), 'method': 'insert', 'turbofish': None, 'recv': dict(M), 'args': [dict(K), n['args'][0]]}
+                bad[0] += 1
+            return None
+        B2 = _map_over(B, fv)
+        if bad[0] or hits[0] != total:
+            return None
+        B = B2
+    if on is None or _uses(A, on) == 0:
+        cond = {'k': 'MethodCall', 'l': l, 'ml': l, 'method': 'contains_key', 'turbofish': None, 'recv': dict(M), 'args': [keyref]}
+    else:
+        okA = [True]
+
+        def fo(n):
+            if n.get('k') == 'MethodCall' and n['recv'].get('k') == 'Path' and n['recv']['path'].get('s') == on:
+                if n['method'] in ('into_mut', 'get_mut', 'get') and not n['args']:
+                    return dict(n['recv'])
+                okA[0] = False
+            return None
+        A = _map_over(A, fo)
+        if not okA[0]:
+            return None
+        pat = {'k': 'TupleStruct', 'l': l, 'qself': False, 'path': _ppath('Some', l),
+               'elems': [{'k': 'Ident', 'name': on, 'by_ref': False, 'mut': False, 'sub': None, 'l': l}]}
+        cond = {'k': 'Let', 'l': l, 'pat': pat,
+                'expr': {'k': 'MethodCall', 'l': l, 'ml': l, 'method': 'get_mut', 'turbofish': None, 'recv': dict(M), 'args': [keyref]}}
+    iff = {'k': 'If', 'l': l, 'cond': cond, 'then': A, 'else': B, 'desugared': 'entry-api'}
+    return [{'k': 'Expr', 'expr': iff, 'semi': False, 'l': l}]
+
+
+def _pat_names(p, out):
+    if isinstance(p, dict):
+        if p.get('k') == 'Ident' and 'by_ref' in p:
+            out.append(p['name'])
+        elif p.get('k') == 'Wild':
+            out.append(None)
+        elif p.get('k') == 'Tuple':
+            for e in p.get('elems', []):
+                _pat_names(e, out)
+        elif p.get('k') in ('Ref', 'Type', 'Reference'):
+            _pat_names(p.get('pat'), out)
+        else:
+            out.append(False)
+
+
+def _unique_filter(stmts):
+    """N19 over the statement list of a block that is the then-branch of `if V.is_none()`"""
+    for i in range(len(stmts) - 1):
+        a, b = stmts[i], stmts[i + 1]
+        if a.get('k') != 'Local' or not isinstance(a.get('init'), dict) or a['pat'].get('k') != 'Ident' or not a['pat'].get('mut'):
+            continue
+        it = a['pat']['name']
+        e = a['init']
+        if e.get('k') != 'MethodCall' or e.get('method') != 'filter' or len(e['args']) != 1 or e['args'][0].get('k') != 'Closure' or len(e['args'][0]['params']) != 1:
+            continue
+        if b.get('k') != 'Expr' or not isinstance(b.get('expr'), dict) or b['expr'].get('k') != 'If' or b['expr'].get('else') is not None:
+            continue
+        iff = b['expr']
+        c = iff['cond']
+
+        def is_next(x):
+            return isinstance(x, dict) and x.get('k') == 'MethodCall' and x.get('method') == 'next' and not x['args'] and x['recv'].get('k') == 'Path' and x['recv']['path'].get('s') == it
+        if c.get('k') != 'Let' or not is_next(c['expr']) or c['pat'].get('k') != 'TupleStruct' or c['pat']['path']['s'] != 'Some' or len(c['pat']['elems']) != 1:
+            continue
+        inner = iff['then'].get('stmts', [])
+        if len(inner) != 1 or inner[0].get('k') != 'Expr' or inner[0]['expr'].get('k') != 'If' or inner[0]['expr'].get('else') is not None:
+            continue
+        iff2 = inner[0]['expr']
+        c2 = iff2['cond']
+        if not (c2.get('k') == 'MethodCall' and c2.get('method') == 'is_none' and is_next(c2['recv'])):
+            continue
+        body = iff2['then'].get('stmts', [])
+        if len(body) != 1 or body[0].get('k') != 'Expr' or body[0]['expr'].get('k') != 'Assign':
+            continue
+        asg = body[0]['expr']
+        V = asg['l_']
+        if V.get('k') != 'Path' or not (asg['r_'].get('k') == 'Call' and asg['r_']['func'].get('k') == 'Path' and asg['r_']['func']['path']['s'] == 'Some'):
+            continue
+        if _uses(stmts[i + 2:], it) or _uses(b, it) != 2:
+            continue
+        clo = e['args'][0]
+        pn, qn = [], []
+        _pat_names(c['pat']['elems'][0], pn)
+        _pat_names(clo['params'][0], qn)
+        if len(pn) != len(qn) or False in pn or False in qn:
+            continue
+        cond = clo['body']
+        while cond.get('k') == 'Block' and len(cond.get('stmts', [])) == 1 and cond['stmts'][0].get('k') == 'Expr' and not cond['stmts'][0].get('semi'):
+            cond = cond['stmts'][0]['expr']
+        l = a.get('l', 0)
+        pat = c['pat']['elems'][0]
+        # closure names -> loop pattern names; a closure name whose loop counterpart is `_` needs a name in the loop pattern
+        import copy as _c
+        pat = _c.deepcopy(pat)
+        ren = {}
+        wild_fix = []
+        for pnm, qnm in zip(pn, qn):
+            if qnm is None:
+                continue
+            if pnm is None:
+                wild_fix.append(qnm)
+            elif pnm != qnm:
+                ren[qnm] = pnm
+        if wild_fix:
+            continue
+        for o_, n_ in ren.items():
+            cond = _rename_ident(cond, o_, n_)
+        vname = V['path']['s']
+        v_is_some = {'k': 'MethodCall', 'l': l, 'ml': l, 'method': 'is_some', 'turbofish': None, 'recv': dict(V), 'args': []}
+        reset = {'k': 'Expr', 'l': l, 'semi': True, 'expr': {'k': 'Assign', 'l': l, 'l_': dict(V), 'r_': _path('None', l)}}
+        reset['expr']['r_']['qself'] = None
+        brk = {'k': 'Expr', 'l': l, 'semi': True, 'expr': {'k': 'Break', 'l': l, 'expr': None, 'label': None}}
+        inner_if = {'k': 'Expr', 'l': l, 'semi': False, 'expr': {'k': 'If', 'l': l, 'cond': v_is_some, 'else': None,
+                                                               'then': {'k': 'Block', 'l': l, 'stmts': [reset, brk]}}}
+        match_if = {'k': 'Expr', 'l': l, 'semi': False, 'expr': {'k': 'If', 'l': l, 'cond': cond, 'else': None,
+                                                               'then': {'k': 'Block', 'l': l, 'stmts': [inner_if, body[0]]}}}
+        loop = {'k': 'Expr', 'l': l, 'semi': False, 'expr': {'k': 'For', 'l': l, 'pat': pat, 'expr': e['recv'],
+                                                           'body': {'k': 'Block', 'l': l, 'stmts': [match_if]}, 'desugared': 'unique-filter'}}
+        return stmts[:i] + [loop] + stmts[i + 2:], vname
+    return None
+
+
 def norm(n):
     if isinstance(n, list):
         return [norm(x) for x in n]
     if not isinstance(n, dict):
         return n
+    if n.get('k') == 'Fn' and isinstance(n.get('block'), dict):
+        import copy as _copy
+        n = dict(n)
+        n['block'] = _copy.deepcopy(n['block'])
+        _vec_pieces(n)
     n = {k: (norm(v) if not (isinstance(k, str) and k.startswith('_')) else v) for k, v in n.items()}
     k = n.get('k')
     if k == 'Block' and isinstance(n.get('stmts'), list):
+        n['stmts'] = _split_n13(n['stmts'])
         out = []
         for st in n['stmts']:
             rep = _any_let(st)
             if rep is None:
                 rep = _cfg_block_let(st)
+            if rep is None:
+                rep = _match_as_ifs(st)
+            if rep is None:
+                rep = _entry_match(st)
             out.extend(rep if rep is not None else [st])
         n['stmts'] = out
+    if k == 'If' and isinstance(n.get('cond'), dict) and n['cond'].get('k') == 'MethodCall' and n['cond'].get('method') == 'is_none' \
+            and not n['cond'].get('args') and isinstance(n.get('then'), dict) and isinstance(n['then'].get('stmts'), list):
+        r19 = _unique_filter(n['then']['stmts'])
+        if r19 is not None and n['cond']['recv'].get('k') == 'Path' and n['cond']['recv']['path'].get('s') == r19[1]:
+            n['then'] = dict(n['then'], stmts=r19[0])
     if k == 'Try':
         x = n.get('expr')
         if isinstance(x, dict) and x.get('k') == 'MethodCall' and x.get('method') in ('ok_or_else', 'ok_or') and len(x.get('args', [])) == 1:
